@@ -215,7 +215,7 @@ theorem SQ_retrDone {c : Cfg} {s : State} (j : Job) (n : Nat) (h : SQ c s) :
   · exact SQ_congr (SQ_busy_cons (.retr2 _) h trivial) rfl rfl rfl rfl
   · exact SQ_congr (SQ_busy_cons (.retr2 _) h trivial) rfl rfl rfl rfl
 
-theorem SQ_scanNew {c : Cfg} {s : State} (x : Nat) (h : SQ c s) : SQ c (scanNew s x) := by
+theorem SQ_scanNew {c : Cfg} {s : State} (x : Nat) (h : SQ c s) : SQ c (scanNew c s x) := by
   unfold scanNew; split
   · exact SQ_congr h rfl rfl rfl rfl
   · exact SQ_congr h rfl rfl rfl rfl
@@ -291,8 +291,8 @@ theorem SQ_scanEnd {c : Cfg} {s s' : State} {st k : Nat} (h : SQ c s)
       · simp only [Option.some.injEq] at hs; subst hs
         exact SQ_congr h1 rfl rfl rfl rfl
       · simp only [Option.some.injEq] at hs; subst hs
-        have hN : SQ c (scanNew s1 x) := SQ_scanNew x h1
-        have hrd' : (scanNew s1 x).rd = s1.rd := by unfold scanNew; split <;> rfl
+        have hN : SQ c (scanNew c s1 x) := SQ_scanNew x h1
+        have hrd' : (scanNew c s1 x).rd = s1.rd := by unfold scanNew; split <;> rfl
         exact SQ_scanRequeue hN (by rw [hrd', hrd]; exact hk) (scanFind_range hx).2
   · simp at hs
 
